@@ -1,5 +1,7 @@
 #!/bin/sh
 # Full .vo build of /verif/coq (no -vos). Serialised with a lock so that checks may call it concurrently.
+# usage: build_coq.sh            build everything (setup)
+#        build_coq.sh T1.vo ...  build only these targets and what they depend on (what one check needs)
 set -e
 cd "$(dirname "$0")/../coq"
 exec 9>.build.lock
@@ -15,6 +17,12 @@ ulimit -s unlimited 2>/dev/null || true
 # -k: one property's broken file must not stop the others from building; every check verifies that the
 # .vo files of ITS dependency closure are present and newer than their sources (harness/common.py).
 rc=0
-timeout 3000 make -k -j16 > build.log 2>&1 || rc=$?
-if [ $rc -ne 0 ]; then grep -B2 -A12 "^Error\|Error:" build.log | head -60; fi
+if [ $# -gt 0 ]; then
+  log=build_targets.log
+  timeout 1500 make -k -j16 "$@" > $log 2>&1 || rc=$?
+else
+  log=build.log
+  timeout 3000 make -k -j16 > $log 2>&1 || rc=$?
+fi
+if [ $rc -ne 0 ]; then grep -B2 -A12 "^Error\|Error:" $log | head -60; fi
 exit 0
